@@ -6,6 +6,7 @@ import AdaptiveModel.Drv.Avg
 import AdaptiveModel.Drv.Avg1D
 import AdaptiveModel.Drv.L1D
 import AdaptiveModel.Drv.Balancing
+import AdaptiveModel.Drv.Prims
 /-!
 Line-protocol driver: `lake env lean --run Driver.lean < ops.txt`.
 Each input line is `<component> <op> <args…>`; one output line per input line.
@@ -29,6 +30,7 @@ def stepAll (a : All) (line : String) : All × String :=
   | "l1" :: rest => let (s, o) := L1D.Drv.stepLine a.l1 rest; ({ a with l1 := s }, o)
   | "bal" :: rest => let (s, o) := Balancing.Drv.stepLine a.bal rest; ({ a with bal := s }, o)
   | "save" :: rest => (a, SaveFs.Drv.stepLine rest)
+  | "prims" :: rest => (a, Prims.Drv.stepLine rest)
   | _ => (a, "bad-component")
 
 partial def loop (h : IO.FS.Stream) (out : IO.FS.Stream) (a : All) : IO Unit := do
